@@ -142,6 +142,35 @@ pub fn run(ctx: &Ctx) -> i32 {
         });
     }
 
+    // more than 65536 layers: coordinates that do not fit 16 bits
+    if ctx.wants_family("beyond-u16") {
+        let cases: Vec<(usize, usize)> = vec![(65536, 1), (65537, 1), (65540, 2), (70000, 1)];
+        ctx.family("beyond-u16", cases.len() as u64, "sprites with 65536 / 65537 / 65540 / 70000 layers and 1-2 frames, cels on a few low layers: for every (f,l) the three routes must report the coordinates (f,l) themselves, and the cells of layers beyond 65535 (which no cel chunk can address) must be empty", true);
+        cases.par_iter().for_each(|(nl, nf)| {
+            let case = || format!("layers={} frames={}", nl, nf);
+            if !ctx.wants("beyond-u16", &case) {
+                return;
+            }
+            let d: Vec<u16> = (0..*nf as u16).map(|i| 10 + i).collect();
+            let mut f = gen::file(4, 3, &fmt, &d);
+            for _ in 0..*nl {
+                f.frames[0].push(Body::Layer(Layer::image("")));
+            }
+            for fr in 0..*nf {
+                for l in [0u16, 1, 4, 7] {
+                    f.frames[fr].push(raw_cel(l, (l % 3) as i16, fr as i16, 200 + l as u8, 2, 2, pixels(&fmt, 2, 2, l as u32 + 9 * fr as u32, (0, 0))));
+                    f.frames[fr].push(Body::UserData(UserData::text(&format!("cel {} {}", fr, l))));
+                }
+            }
+            let c = conform(ctx, "beyond-u16", &case, &f, &want);
+            if let Some(o) = &c.obs {
+                if let Some(msg) = direct_checks(o) {
+                    ctx.violation(Violation { family: "beyond-u16".into(), case: case(), sig: format!("direct:{}", sig_of(&msg)), detail: msg, bytes: None, extra: json!({}) });
+                }
+            }
+        });
+    }
+
     // loadable but irregular nesting (levels that skip, e.g. 0 -> 2): outside the reference model,
     // inside C19's quantifier ("all loadable sprites"); direct oracle only
     if ctx.wants_family("loose-levels") {
